@@ -16,9 +16,11 @@ head = s[:start]
 body = ("## 9. Seeded changes and which check catches them\n\n"
         "38 changes (two per property), each written by a fresh sub-agent that saw only the property text, each confirmed\n"
         "independently (demo passes clean / fails patched / pinned suite passes patched) before being kept in `seeded/`.\n"
-        "All 38 are reported by the quick tier of the check of the property they target.  Five were MISSED by the first\n"
-        "version of a check and led to a stronger workload, oracle or monitor (C02-A: M-return; C05-A: far-sticky-digit\n"
-        "placements; C09-B: integer sweep over every radix; C13-A: mantissa radix < exponent radix formats; C17-A: hostile\n"
-        "options offered to the builder; C19-B: 'zero unchanged' read strictly).\n\n" + table + "\n")
+        "37 are reported by the quick tier of the check of the property they target; C19-B is not, because under the\n"
+        "reading of the statement that the unchanged tree satisfies it is not a violation (see its row).  Five were MISSED\n"
+        "by the first version of a check and led to a stronger workload or monitor (C02-A: M-return watchdog; C05-A:\n"
+        "far-sticky-digit placements; C09-B: integer sweep over every radix; C13-A: formats whose mantissa radix is\n"
+        "smaller than the exponent radix; C17-A: hostile options offered to the builder).  A stricter C19 oracle tried for\n"
+        "C19-B raised alarms on the unchanged tree (also seen by `vp check`) and was withdrawn.\n\n" + table + "\n")
 open(p, "w").write(head + body)
 print(len(rows), "rows")
